@@ -103,8 +103,11 @@ def s_keep(path, fid, args=(), layout="one", path_style="lit"):
     return {"k": "keep", "path": path, "fn": fid, "args": list(args), "layout": layout, "path_style": path_style}
 
 
-def s_load(path):
-    return {"k": "load", "path": path}
+LOAD_FORMS = ["assign", "posarg", "kwarg", "subscript", "format_kw"]
+
+
+def s_load(path, form="assign"):
+    return {"k": "load", "path": path, "form": form}
 
 
 def s_ref(fid):
@@ -291,7 +294,17 @@ def render_fn(p, fid, ctx, prelude):
             else:
                 lines.append("    x%d = dds.keep(%s)" % (i, ", ".join(parts)))
         elif k == "load":
-            lines.append("    x%d = dds.load(%s)" % (i, _path_expr(ctx, s["path"], s.get("path_style", "lit"), prelude)))
+            le = "dds.load(%s)" % _path_expr(ctx, s["path"], s.get("path_style", "lit"), prelude)
+            form = s.get("form", "assign")
+            if form == "posarg":
+                le = "vlog.ident(%s)" % le
+            elif form == "kwarg":
+                le = "vlog.ident(v=%s)" % le
+            elif form == "subscript":
+                le = "(%s, 0)[0]" % le
+            elif form == "format_kw":
+                le = "(\"{d}\".format(d=%s), %s)" % (le, le)
+            lines.append("    x%d = %s" % (i, le))
         elif k == "ref":
             lines.append("    x%d = vlog.call0(%s)" % (i, ctx.fn_expr(s["fn"], need_bare=True)))
         elif k == "lambda_keep":
